@@ -241,10 +241,17 @@ def extract():
     for node in ast.walk(dpp):
         if isinstance(node, ast.Call) and isinstance(node.func, ast.Attribute) and node.func.attr == "sort":
             for kw in node.keywords:
-                if kw.arg == "key" and isinstance(kw.value, ast.Lambda):
-                    arg = kw.value.args.args[0].arg
+                keyfn = kw.value if kw.arg == "key" else None
+                if isinstance(keyfn, (ast.Name, ast.Attribute)):        # key=rank / key=self.rank: a named function
+                    nm = keyfn.id if isinstance(keyfn, ast.Name) else keyfn.attr
+                    defs = [f for f in ast.walk(nt) if isinstance(f, ast.FunctionDef) and f.name == nm]
+                    keyfn = defs[0] if defs else None
+                if isinstance(keyfn, (ast.Lambda, ast.FunctionDef)):
+                    args = [a.arg for a in keyfn.args.args if a.arg != "self"]
+                    arg = args[0]
                     on_obj = on_str = False
-                    for sub in ast.walk(kw.value.body):
+                    body = [keyfn.body] if isinstance(keyfn, ast.Lambda) else keyfn.body
+                    for sub in (x for b in body for x in ast.walk(b)):
                         if isinstance(sub, ast.Subscript) and isinstance(sub.slice, ast.Name) and sub.slice.id == arg:
                             on_obj = True
                         if isinstance(sub, ast.Attribute) and isinstance(sub.value, ast.Name) and sub.value.id == arg \
